@@ -151,6 +151,7 @@ package cmd
 //@   modifies ghost(nopen, 0), ghost(nlocked, 0)
 //@   ensures loud: result == nil ==> cbran(f) && cbret(f) == nil
 //@   ensures propagated: cbran(f) && cbret(f) != nil ==> result != nil
+//@   check open_failed: called(OpenFile) && callret(OpenFile, 1) != nil ==> result != nil
 //@   check flushed: result == nil && called("(*Writer).Flush") ==> callret("(*Writer).Flush", 0) == nil && called("(*File).Sync") && callret("(*File).Sync", 0) == nil
 //@                 && called("(*File).Close") && callret("(*File).Close", 0) == nil
 
@@ -172,7 +173,7 @@ package cmd
 
 //@ func getFileDataFromRemote
 //@   props C15 C12 C16
-//@   check[C12] empty_is_notexist: called(convertRemoteErrNotExist) ==> ispathne(result2)
+//@   check[C12] empty_is_notexist: called(ReadAll) && callret(ReadAll, 1) == nil && len(callret(ReadAll, 0)) == 0 ==> ispathne(result2)
 //@   ensures ok: result2 == nil ==> listOK(result0, result1) && allNonNil(result1) && allShaped(result1) && fresh(result0)
 //@   ensures failed: result2 != nil ==> result0 == nil && len(result1) == 0
 //@ loop getFileDataFromRemote#0
@@ -303,7 +304,7 @@ package cmd
 
 //@ func getRawFileDataFromRemote
 //@   props C15 C12 C16
-//@   check[C12] empty_is_notexist: called(convertRemoteErrNotExist) ==> ispathne(result2)
+//@   check[C12] empty_is_notexist: called(ReadAll) && callret(ReadAll, 1) == nil && len(callret(ReadAll, 0)) == 0 ==> ispathne(result2)
 //@   ensures ok: result2 == nil ==> rawListOK(result0, result1) && fresh(result0)
 //@   ensures failed: result2 != nil ==> result0 == nil && len(result1) == 0
 //@ loop getRawFileDataFromRemote#0
@@ -447,6 +448,9 @@ package cmd
 //@ func openOrCreateCopyDestFile
 //@   props C08 C11 C16
 //@   check[C08] created_synced: result1 == nil && called(Create) ==> called("(*Whisper).Sync") && callret("(*Whisper).Sync", 0) == nil
+//@   check[C08] creates_missing: called(Open) && ispathne(callret(Open, 1)) && result1 == nil ==> called(Create)
+//@   check[C08] other_errors_returned: called(Open) && callret(Open, 1) != nil && !ispathne(callret(Open, 1)) ==> result1 != nil && !called(Create)
+//@   check[C08] existing_is_opened: called(Open) && callret(Open, 1) == nil ==> result1 == nil && !called(Create)
 //@   requires srcHeader != nil
 //@   modifies srcHeader.archiveInfoList[0:len(srcHeader.archiveInfoList)], ghost(nopen, 0), ghost(nlocked, 0)
 //@   ensures ok: result1 == nil ==> result0 != nil && fresh(result0) && handleLive(result0) && fresh(result0.file) && fresh(result0.fileBuf)
@@ -498,6 +502,7 @@ package cmd
 //@   modifies rows(Point), fb(db.fileBuf)
 //@   ensures kind: result == nil || isio(result)
 //@   ensures header_untouched: forall b :: b < 16 + 12 * len(db.header.archiveInfoList) ==> fbyte(db.fileBuf, b) == old(fbyte(db.fileBuf, b))
+//@   assert each_list_to_its_archive: w == db && points === pointsList[archiveID] before (*Whisper).UpdatePointsForArchive
 //@ loop updateFileDataWithPointsList#0
 //@   invariant bounds: 0 <= archiveID && archiveID <= len(db.header.archiveInfoList)
 //@   invariant lists: pointsList === entry(pointsList) && (forall k :: 0 <= k && k < len(pointsList) ==> pointsList[k] === old(pointsList[k]))
